@@ -651,7 +651,14 @@ def _parse_config_input_calcpaths(input, path):
 
 
 def _parse_config_input_postpaths(input, path):
-    input["paths"] = [np.load(resolve_path(p, path.parent)) for p in input["paths"]]
+    input["paths"] = [
+        (
+            read_scsv(resolve_path(p, path.parent))
+            if str(p).endswith(".scsv")
+            else np.load(resolve_path(p, path.parent))
+        )
+        for p in input["paths"]
+    ]
     if "locations_initial" in input:
         _log.warning(
             "input pathlines and initial particle locations are mutually exclusive;"
